@@ -1012,7 +1012,9 @@ impl Headers {
                 if let Some((_, lines)) = header_lines(at) {
                     let te = named(&lines, b"transfer-encoding");
                     let cl = named(&lines, b"content-length");
-                    if te.len() > 1 {
+                    if lines.iter().any(|(k, _)| k.is_empty()) {
+                        cls = Some("c03-h1-empty-header-name-forwarded");
+                    } else if te.len() > 1 {
                         cls = Some("c03-h1-te-multiple-forwarded");
                     } else if te.len() == 1 && !cl.is_empty() {
                         cls = Some("c03-h1-te-and-cl-forwarded");
